@@ -119,5 +119,19 @@ pub fn c05_native_components_keep_objectives_fresh() {
             }
         }
     }
+    // swarm moves on EVALUATED particles, with several particles tied for the best objective value at different positions
+    // (the black hole is "the best particle": whatever the component takes it to be, a particle that reports a value afterwards
+    // reports the value of the position it is at)
+    {
+        use crate::components::swarm::bh::BlackHoleParticlesUpdate;
+        let tied: Vec<Vec<f64>> = vec![vec![0.5, 0.25, -4.5], vec![0.75, 1.5, -4.25], vec![0.0, 0.5, -4.5], vec![-0.5, 0.75, -4.5], vec![0.25, 1.0, -4.0]];
+        let unique: Vec<Vec<f64>> = vec![vec![0.5, 0.25, -4.5], vec![0.75, 1.5, -4.25], vec![0.25, 1.0, -4.0]];
+        for seed in 0..12u64 {
+            for pop in [&tied, &unique] {
+                let op: Box<dyn Component<Plane>> = BlackHoleParticlesUpdate::new();
+                cases += check(&Plane, "BlackHoleParticlesUpdate", op.as_ref(), pop, &|s: &Vec<f64>| plane(s), seed);
+            }
+        }
+    }
     println!("c05_native_components_keep_objectives_fresh: {} component executions checked", cases);
 }
